@@ -36,8 +36,7 @@ theorem record_fits (c : Cfg) (es : List Entry) (idx cid bid : Nat) (v : Int) (h
     ∃ res, record c es idx cid bid v = some (es ++ [mkEntry c idx cid bid v], res) ∧ res.added = true ∧
       (res.stop = true ↔ ((mkEntry c idx cid bid v).order < c.left ∨ (mkEntry c idx cid bid v).order > c.right
           ∨ es.length + 1 = c.maxlen)) ∧
-      (res.success = true ↔ (((mkEntry c idx cid bid v).order < c.left ∨ (mkEntry c idx cid bid v).order > c.right)
-          ∧ es.length + 1 ≠ c.maxlen)) := by
+      (res.success = true ↔ ((mkEntry c idx cid bid v).order < c.left ∨ (mkEntry c idx cid bid v).order > c.right)) := by
   obtain ⟨res, h1, h2, h3, h4⟩ := addToPath_fits (es.map (·.order)) (some c.maxlen) (mkEntry c idx cid bid v).order
     c.left c.right (by intro m hm; simp at hm; subst hm; simpa using h)
   refine ⟨res, ?_, h2, ?_, ?_⟩
@@ -51,9 +50,7 @@ theorem record_fits (c : Cfg) (es : List Entry) (idx cid bid : Nat) (v : Int) (h
     · exact Or.inl hh
     · exact Or.inr (Or.inl hh)
     · exact Or.inr (Or.inr (by omega))
-  · rw [h4]
-    simp only [List.length_map, ne_eq, Option.some.injEq]
-    constructor <;> rintro ⟨a, b⟩ <;> exact ⟨a, by omega⟩
+  · exact h4
 
 /-- whatever `record` answers, the new entry list is the old one or the old one plus the new entry -/
 theorem record_es (c : Cfg) (es es' : List Entry) (idx cid bid : Nat) (v : Int) (r : AddResult)
